@@ -32,6 +32,8 @@ ASSUMPTIONS = [
     "GTF exon lines carry coordinates (extent inference over '.' coordinates is outside C01); derived features "
     "(source gffutils_derived) are excluded here and judged by C03",
     "attribute key order of stored features is compared exactly for the GFF3 importer and as a mapping for GTF",
+    "as in C07, a key=value line whose first attribute is a valueless flag is outside the grammar (indistinguishable from the "
+    "'key value' style); when printing in file-wide key order produces such a line the re-import comparison is skipped (counted)",
 ]
 QUICK_SHARDS = 4
 NS = [1, 2, 3, 5, 10, 11, 12, 25, 40]
@@ -255,6 +257,15 @@ def reimport(ctx, case, db, kw, text):
     finally:
         if src_db is not db:
             src_db.conn.close()
+    if case["D"]["fmt"] == "gff3":
+        # keep_order=True prints keys in the file-wide first-seen order, which can move a valueless flag to the
+        # front of a key=value line; such a line is outside the grammar (see ASSUMPTIONS), so its re-import is not judged
+        for ln in printed:
+            cols = ln.split("\t")
+            first_part = cols[8].split(case["D"]["sep"])[0] if len(cols) > 8 and cols[8] else "k=v"
+            if "=" not in first_part:
+                ctx.skip("re-import: a printed key=value line starts with a valueless flag (outside the grammar)")
+                return True
     p = ctx.tmp(".reimport.gff")
     with open(p, "w", encoding="utf-8", newline="") as fh:
         fh.write("\n".join(printed) + "\n")
